@@ -65,6 +65,11 @@ type c06Env struct {
 	src   [2]string  // encoded source id of the active / passive database
 	wcv   db.Version // current version reported by the last successful local write
 	wcvOK bool
+	// deepening round: the resolver of every replication this environment creates (default policy when empty) and,
+	// for the chain topology A <-> B <-> C, a second active database replicating with the same passive one
+	rtype db.ConflictResolverType
+	rfn   string
+	act2  *RestTester
 }
 
 func c06NewEnv(t *testing.T, v4 bool, ndocs int, tag string) *c06Env {
@@ -82,8 +87,11 @@ func c06NewEnv(t *testing.T, v4 bool, ndocs int, tag string) *c06Env {
 }
 
 func (e *c06Env) rt(side int) *RestTester {
-	if side == 0 {
+	switch side {
+	case 0:
 		return e.act
+	case 2:
+		return e.act2
 	}
 	return e.pas
 }
@@ -254,10 +262,20 @@ func (e *c06Env) replStatus(id string) (db.ReplicationStatus, bool) {
 }
 
 func (e *c06Env) createRepl(id string, dir db.ActiveReplicatorDirection, continuous bool) bool {
+	return e.createReplOn(e.act, id, dir, continuous)
+}
+
+func (e *c06Env) createReplOn(rt *RestTester, id string, dir db.ActiveReplicatorDirection, continuous bool) bool {
 	cfg := &db.ReplicationConfig{ID: id, Direction: dir, Remote: e.url, Continuous: continuous,
 		ConflictResolutionType: db.ConflictResolverDefault, CollectionsEnabled: base.TestsUseNamedCollections()}
+	if e.rtype != "" {
+		cfg.ConflictResolutionType = e.rtype
+		if e.rtype == db.ConflictResolverCustom {
+			cfg.ConflictResolutionFn = e.rfn
+		}
+	}
 	payload, _ := json.Marshal(cfg)
-	resp := e.act.SendAdminRequest(http.MethodPost, "/{{.db}}/_replication/", string(payload))
+	resp := rt.SendAdminRequest(http.MethodPost, "/{{.db}}/_replication/", string(payload))
 	if resp.Code != http.StatusCreated {
 		e.fail("create replication %s: %d %s", id, resp.Code, resp.BodyString())
 		return false
